@@ -853,4 +853,575 @@ theorem parseName_compressed (d : List Nat) (p : P) (pre suf : List (List Nat)) 
   simp
 
 
+/-! ## 3. totality of the record walk: no panic, no exhausted budget -/
+
+theorem GoodR.pure {α : Type} {d : List Nat} {L : Nat} (a : α) (p : P) (h1 : p.Inv d) (h2 : p.len = L) :
+    GoodR d L (Pure.pure (a, p) : R (α × P)) := ⟨h1, h2⟩
+
+/-- `ParsedName::skip`: every turn moves the cursor forward, so `len - pos + 1` turns are enough -/
+theorem skipRun_good (d : List Nat) (L : Nat) : ∀ (f : Nat) (p : P) (len : Nat), p.Inv d → p.len = L → p.len - p.pos < f →
+    GoodP d L (skipRun f d p len) := by
+  intro f
+  induction f with
+  | zero => intro p len _ _ h; omega
+  | succ f ih =>
+    intro p len hi hL hf
+    unfold skipRun
+    have hg := parseLabelType_good d p hi
+    cases hl : parseLabelType d p with
+    | error e => rw [hl] at hg; exact hg
+    | ok v =>
+      obtain ⟨lt, p1⟩ := v
+      rw [hl] at hg
+      have hinv := parseLabelType_ok_inv d p lt p1 hl
+      simp only [bind, Except.bind]
+      cases lt with
+      | normal n =>
+        simp only
+        by_cases hn : n = 0
+        · simp only [hn, if_true]
+          split
+          · exact ⟨by simp, by simp⟩
+          · exact ⟨hg.1, by rw [hg.2, hL]⟩
+        · simp only [hn, if_false]
+          have ha := advance_good d p1 n hg.1
+          cases hadv : advance p1 n with
+          | error e => rw [hadv] at ha; exact ha
+          | ok p2 =>
+            rw [hadv] at ha
+            simp only
+            split
+            · exact ⟨by simp, by simp⟩
+            · have hp2 : p1.pos ≤ p2.pos := by
+                unfold advance at hadv
+                split at hadv; · cases hadv
+                split at hadv; · cases hadv
+                injection hadv with hadv; subst hadv; simp
+              have h1 : p1.pos = p.pos + 1 := hinv.2.2.1
+              exact ih p2 _ ha.1 (by rw [ha.2, hg.2, hL]) (by have := ha.2; have := hg.2; omega)
+      | ptr t => exact ⟨hg.1, by rw [hg.2, hL]⟩
+
+theorem skipName_good (d : List Nat) (p : P) (hi : p.Inv d) : GoodP d p.len (skipName d p) :=
+  skipRun_good d p.len _ p 0 hi rfl (by omega)
+
+/-- a parsed record whose data parser satisfies the invariant and whose data fit the limit -/
+def RecOk (d : List Nat) (L : Nat) (r : Rec) : Prop := r.data.Inv d ∧ r.data.len = L ∧ r.data.pos + r.rdlen ≤ L
+
+/-- a target predicate on results that every proper error satisfies -/
+def ErrClosed {β : Type} (T : R β → Prop) : Prop := ∀ e : PErr, e ≠ .panic → e ≠ .fuel → T (.error e)
+
+theorem GoodR.elim {α β : Type} {d : List Nat} {L : Nat} {T : R β → Prop} (hT : ErrClosed T) {x : R (α × P)} {f : α × P → R β}
+    (hx : GoodR d L x) (hf : ∀ a p', p'.Inv d → p'.len = L → T (f (a, p'))) : T (x >>= f) := by
+  cases x with
+  | error e => exact hT e hx.1 hx.2
+  | ok v => obtain ⟨a, p'⟩ := v; exact hf a p' hx.1 hx.2
+
+theorem GoodP.elim {β : Type} {d : List Nat} {L : Nat} {T : R β → Prop} (hT : ErrClosed T) {x : R P} {f : P → R β}
+    (hx : GoodP d L x) (hf : ∀ p', p'.Inv d → p'.len = L → T (f p')) : T (x >>= f) := by
+  cases x with
+  | error e => exact hT e hx.1 hx.2
+  | ok v => exact hf v hx.1 hx.2
+
+theorem advance_spec (d : List Nat) (p : P) (n : Nat) (hi : p.Inv d) :
+    (p.len - p.pos < n ∧ advance p n = .error .shortInput) ∨ (n ≤ p.len - p.pos ∧ advance p n = .ok ⟨p.pos + n, p.len⟩) := by
+  obtain ⟨h1, h2⟩ := hi
+  unfold advance
+  rw [if_neg (by omega)]
+  by_cases hn : n > p.len - p.pos
+  · left; exact ⟨hn, by rw [if_pos hn]⟩
+  · right; exact ⟨by omega, by rw [if_neg hn]⟩
+
+/-- result discipline of `ParsedRecord::parse` -/
+def RecGood (d : List Nat) (L : Nat) (r : R (Rec × P)) : Prop :=
+  match r with
+  | .ok (r, p') => (p'.Inv d ∧ p'.len = L) ∧ RecOk d L r
+  | .error e => e ≠ .panic ∧ e ≠ .fuel
+
+theorem parseRecord_good (d : List Nat) (p : P) (hi : p.Inv d) : RecGood d p.len (parseRecord d p) := by
+  have hT : ErrClosed (RecGood d p.len) := fun e h1 h2 => ⟨h1, h2⟩
+  unfold parseRecord
+  refine GoodR.elim hT (parseName_good d p hi) ?_
+  intro owner p0 i0 l0; dsimp only
+  refine GoodR.elim hT (l0 ▸ parseU16_good d p0 i0) ?_
+  intro rtype p1 i1 l1; dsimp only
+  refine GoodR.elim hT (l1 ▸ parseU16_good d p1 i1) ?_
+  intro cls p2 i2 l2; dsimp only
+  refine GoodR.elim hT (l2 ▸ parseU32_good d p2 i2) ?_
+  intro ttl p3 i3 l3; dsimp only
+  refine GoodR.elim hT (l3 ▸ parseU16_good d p3 i3) ?_
+  intro rdlen p4 i4 l4; dsimp only
+  rcases advance_spec d p4 rdlen i4 with ⟨_, h⟩ | ⟨hn, h⟩
+  · rw [h]; exact ⟨by simp, by simp⟩
+  · rw [h]
+    have := i4.1
+    exact ⟨⟨⟨by show p4.pos + rdlen ≤ p4.len; omega, i4.2⟩, l4⟩, i4, l4, by show p4.pos + rdlen ≤ p.len; omega⟩
+
+
+theorem GoodP.errClosed (d : List Nat) (L : Nat) : ErrClosed (GoodP d L) := fun _ h1 h2 => ⟨h1, h2⟩
+
+theorem skipRecord_good (d : List Nat) (p : P) (hi : p.Inv d) : GoodP d p.len (skipRecord d p) := by
+  have hT := GoodP.errClosed d p.len
+  unfold skipRecord
+  refine GoodP.elim hT (skipName_good d p hi) ?_
+  intro p0 i0 l0
+  refine GoodP.elim hT (l0 ▸ advance_good d p0 8 i0) ?_
+  intro p1 i1 l1
+  refine GoodR.elim hT (l1 ▸ parseU16_good d p1 i1) ?_
+  intro rdlen p2 i2 l2; dsimp only
+  exact l2 ▸ advance_good d p2 rdlen i2
+
+theorem skipRecords_good (d : List Nat) (L : Nat) : ∀ (n : Nat) (p : P), p.Inv d → p.len = L → GoodP d L (skipRecords n d p) := by
+  intro n
+  induction n with
+  | zero => intro p hi hl; exact ⟨hi, hl⟩
+  | succ n ih =>
+    intro p hi hl
+    unfold skipRecords
+    refine GoodP.elim (GoodP.errClosed d L) (hl ▸ skipRecord_good d p hi) ?_
+    intro p' i' l'
+    exact ih p' i' l'
+
+theorem skipQuestions_good (d : List Nat) (L : Nat) : ∀ (n : Nat) (p : P), p.Inv d → p.len = L → GoodP d L (skipQuestions n d p) := by
+  intro n
+  induction n with
+  | zero => intro p hi hl; exact ⟨hi, hl⟩
+  | succ n ih =>
+    intro p hi hl
+    have hT := GoodP.errClosed d L
+    unfold skipQuestions
+    refine GoodR.elim hT (hl ▸ parseName_good d p hi) ?_
+    intro _ p0 i0 l0; dsimp only
+    refine GoodR.elim hT (l0 ▸ parseU16_good d p0 i0) ?_
+    intro _ p1 i1 l1; dsimp only
+    refine GoodR.elim hT (l1 ▸ parseU16_good d p1 i1) ?_
+    intro _ p2 i2 l2; dsimp only
+    exact ih p2 i2 l2
+
+theorem answerStart_good (d : List Nat) (h : 12 ≤ d.length) : GoodP d d.length (answerStart d) :=
+  skipQuestions_good d d.length _ ⟨12, d.length⟩ ⟨h, Nat.le_refl _⟩ rfl
+
+theorem additionalStart_good (d : List Nat) (h : 12 ≤ d.length) : GoodP d d.length (additionalStart d) := by
+  have hT := GoodP.errClosed d d.length
+  unfold additionalStart
+  refine GoodP.elim hT (answerStart_good d h) ?_
+  intro p0 i0 l0
+  refine GoodP.elim hT (skipRecords_good d d.length _ p0 i0 l0) ?_
+  intro p1 i1 l1
+  exact skipRecords_good d d.length _ p1 i1 l1
+
+/-- the record walk always produces a list (an error just ends it), and every record in it is sound -/
+theorem records_good (d : List Nat) (L : Nat) : ∀ (n : Nat) (p : P), p.Inv d → p.len = L →
+    ∃ rs, records n d p = .ok rs ∧ ∀ r ∈ rs, RecOk d L r := by
+  intro n
+  induction n with
+  | zero => intro p _ _; exact ⟨[], rfl, by simp⟩
+  | succ n ih =>
+    intro p hi hl
+    have hg := parseRecord_good d p hi
+    unfold records
+    cases hr : parseRecord d p with
+    | error e =>
+      rw [hr] at hg
+      have : e.fatal = false := by
+        have h1 : e ≠ .panic := hg.1
+        have h2 : e ≠ .fuel := hg.2
+        cases e <;> simp_all [PErr.fatal]
+      simp only [this]
+      exact ⟨[], rfl, by simp⟩
+    | ok v =>
+      obtain ⟨r, p'⟩ := v
+      rw [hr] at hg
+      obtain ⟨⟨i', l'⟩, hok⟩ := hg
+      obtain ⟨rs, hrs, hall⟩ := ih p' i' (by rw [l', hl])
+      refine ⟨r :: rs, ?_, ?_⟩
+      · simp only [hrs, bind, Except.bind, pure, Except.pure]
+      · intro x hx
+        simp only [List.mem_cons] at hx
+        rcases hx with rfl | hx
+        · exact hl ▸ hok
+        · exact hall x hx
+
+theorem sectionRecords_good (d : List Nat) (start : R P) (n : Nat) (hs : GoodP d d.length start) :
+    ∃ rs, sectionRecords start n d = .ok rs ∧ ∀ r ∈ rs, RecOk d d.length r := by
+  unfold sectionRecords
+  cases start with
+  | error e =>
+    have : e.fatal = false := by
+      have := hs.1; have := hs.2
+      cases e <;> simp_all [PErr.fatal]
+    simp only [this]
+    exact ⟨[], rfl, by simp⟩
+  | ok p => exact records_good d d.length n p hs.1 hs.2
+
+theorem allRecords_good (d : List Nat) (h : 12 ≤ d.length) :
+    ∃ rs, allRecords d = .ok rs ∧ ∀ r ∈ rs, RecOk d d.length r := by
+  obtain ⟨a, ha, hall⟩ := sectionRecords_good d (answerStart d) (hdrU16 d 6) (answerStart_good d h)
+  obtain ⟨b, hb, hbll⟩ := sectionRecords_good d (additionalStart d) (hdrU16 d 10) (additionalStart_good d h)
+  refine ⟨a ++ b, ?_, ?_⟩
+  · simp only [allRecords, ha, hb, bind, Except.bind, pure, Except.pure]
+  · intro r hr
+    rcases List.mem_append.mp hr with h1 | h1
+    · exact hall r h1
+    · exact hbll r h1
+
+
+theorem Fine.errClosed {β : Type} : ErrClosed (Fine : R β → Prop) := fun _ h1 h2 => Fine.err h1 h2
+
+theorem finish_fine {α : Type} (d : List Nat) (sp : P) (x : α) (hi : sp.Inv d) : Fine (finish sp x) := by
+  unfold finish
+  rw [if_neg (by have := hi.1; omega)]
+  split
+  · exact Fine.err (by simp) (by simp)
+  · exact Fine.ok _
+
+/-- the record-data sub-parser of a sound record exists and satisfies the invariant -/
+theorem subParser_rec (d : List Nat) (L : Nat) (r : Rec) (hr : RecOk d L r) :
+    subParser r.data r.rdlen = .ok ⟨r.data.pos, r.data.pos + r.rdlen⟩ ∧ P.Inv d ⟨r.data.pos, r.data.pos + r.rdlen⟩ := by
+  obtain ⟨⟨h1, h2⟩, h3, h4⟩ := hr
+  unfold subParser
+  rw [if_neg (by omega), if_neg (by omega)]
+  exact ⟨rfl, by show r.data.pos ≤ r.data.pos + r.rdlen; omega, by show r.data.pos + r.rdlen ≤ d.length; omega⟩
+
+theorem toSrv_fine (d : List Nat) (L : Nat) (r : Rec) (hr : RecOk d L r) : Fine (toSrv d r) := by
+  obtain ⟨hs, hi⟩ := subParser_rec d L r hr
+  unfold toSrv
+  rw [hs]
+  simp only [bind, Except.bind]
+  split
+  · exact Fine.ok _
+  · refine GoodR.elim Fine.errClosed (parseU16_good d _ hi) ?_
+    intro _ p1 i1 l1; dsimp only
+    refine GoodR.elim Fine.errClosed (l1 ▸ parseU16_good d p1 i1) ?_
+    intro _ p2 i2 l2; dsimp only
+    refine GoodR.elim Fine.errClosed (l2 ▸ parseU16_good d p2 i2) ?_
+    intro port p3 i3 l3; dsimp only
+    refine GoodR.elim Fine.errClosed (l3 ▸ parseName_good d p3 i3) ?_
+    intro target p4 i4 l4; dsimp only
+    exact finish_fine d p4 _ i4
+
+theorem toPtr_fine (d : List Nat) (L : Nat) (r : Rec) (hr : RecOk d L r) : Fine (toPtr d r) := by
+  obtain ⟨hs, hi⟩ := subParser_rec d L r hr
+  unfold toPtr
+  rw [hs]
+  simp only [bind, Except.bind]
+  split
+  · exact Fine.ok _
+  · refine GoodR.elim Fine.errClosed (parseName_good d _ hi) ?_
+    intro target p4 i4 l4; dsimp only
+    exact finish_fine d p4 _ i4
+
+theorem toAddr_fine (rt n : Nat) (d : List Nat) (L : Nat) (r : Rec) (hr : RecOk d L r) : Fine (toAddr rt n d r) := by
+  obtain ⟨hs, hi⟩ := subParser_rec d L r hr
+  unfold toAddr
+  rw [hs]
+  simp only [bind, Except.bind]
+  split
+  · exact Fine.ok _
+  · refine GoodR.elim Fine.errClosed (take_good d _ n hi) ?_
+    intro a p4 i4 l4; dsimp only
+    exact finish_fine d p4 _ i4
+
+/-- `to_record::<UnknownRecordData>` cannot fail on a sound record: it answers exactly the record data -/
+theorem toUnknown_eq (d : List Nat) (L : Nat) (r : Rec) (hr : RecOk d L r) :
+    toUnknown d r = .ok (some ((d.drop r.data.pos).take r.rdlen)) := by
+  obtain ⟨hs, hi⟩ := subParser_rec d L r hr
+  unfold toUnknown
+  rw [hs]
+  simp only [bind, Except.bind]
+  rw [if_neg (by omega)]
+  have := take_at d r.data.pos (r.data.pos + r.rdlen) ((d.drop r.data.pos).take r.rdlen) ((d.drop r.data.pos).drop r.rdlen)
+    (by rw [List.take_append_drop])
+    (by rw [List.length_take, List.length_drop]; have := hi.2; simp only at this; omega) hi.2
+  have hl : ((d.drop r.data.pos).take r.rdlen).length = r.rdlen := by
+    rw [List.length_take, List.length_drop]; have := hi.2; simp only at this; omega
+  rw [hl] at this
+  rw [show r.data.pos + r.rdlen - r.data.pos = r.rdlen by omega, this.1]
+  simp [finish]
+
+/-- what `if let Ok(Some(x)) = …` sees is always defined when the call is fine -/
+theorem okSome_fine {α : Type} (r : R (Option α)) (h : Fine r) : ∃ v, okSome r = .ok v := by
+  unfold okSome
+  cases r with
+  | ok x => exact ⟨x, rfl⟩
+  | error e =>
+    have : e.fatal = false := by
+      have h1 : e ≠ .panic := by intro h'; exact h.1 (by rw [h'])
+      have h2 : e ≠ .fuel := by intro h'; exact h.2 (by rw [h'])
+      cases e <;> simp_all [PErr.fatal]
+    simp only [this]
+    exact ⟨none, rfl⟩
+
+theorem pass1Step_ok (d : List Nat) (L : Nat) (a : Acc) (r : Rec) (hr : RecOk d L r) : ∃ a', pass1Step d a r = .ok a' := by
+  obtain ⟨v, hv⟩ := okSome_fine _ (toSrv_fine d L r hr)
+  obtain ⟨w, hw⟩ := okSome_fine _ (toPtr_fine d L r hr)
+  unfold pass1Step
+  rw [hv]
+  simp only [bind, Except.bind]
+  cases v with
+  | some x => obtain ⟨port, target⟩ := x; exact ⟨_, rfl⟩
+  | none =>
+    simp only
+    split
+    · rw [hw]
+      cases w with
+      | some n => exact ⟨_, rfl⟩
+      | none => exact ⟨_, rfl⟩
+    · exact ⟨_, rfl⟩
+
+theorem pass1_ok (d : List Nat) (L : Nat) : ∀ (rs : List Rec) (a : Acc), (∀ r ∈ rs, RecOk d L r) → ∃ a', pass1 d rs a = .ok a' := by
+  intro rs
+  induction rs with
+  | nil => intro a _; exact ⟨a, rfl⟩
+  | cons r rs ih =>
+    intro a h
+    obtain ⟨a1, h1⟩ := pass1Step_ok d L a r (h r (by simp))
+    obtain ⟨a2, h2⟩ := ih a1 (fun x hx => h x (by simp [hx]))
+    exact ⟨a2, by simp only [pass1, h1, bind, Except.bind, h2]⟩
+
+theorem findTxt_ok (d : List Nat) (L : Nat) (inst : Name) : ∀ (rs : List Rec), (∀ r ∈ rs, RecOk d L r) → ∃ t, findTxt d inst rs = .ok t := by
+  intro rs
+  induction rs with
+  | nil => intro _; exact ⟨[], rfl⟩
+  | cons r rs ih =>
+    intro h
+    unfold findTxt
+    split
+    · exact ih (fun x hx => h x (by simp [hx]))
+    · rw [toUnknown_eq d L r (h r (by simp))]
+      exact ⟨_, rfl⟩
+
+
+/-! ### `MdnsTxt` -/
+
+theorem findEq_lt : ∀ (s : List Nat) (i : Nat), findEq s = some i → i < s.length := by
+  intro s
+  induction s with
+  | nil => intro i h; cases h
+  | cons b r ih =>
+    intro i h
+    unfold findEq at h
+    split at h
+    · injection h with h; subst h; simp
+    · cases hf : findEq r with
+      | none => rw [hf] at h; cases h
+      | some j =>
+        rw [hf] at h
+        simp only [Option.map_some, Option.some.injEq] at h
+        subst h
+        have := ih j hf
+        simp; omega
+
+theorem index_ok (l : List Nat) (i : Nat) (h : i < l.length) : ∃ x, index l i = .ok x := by
+  unfold index
+  rw [List.getElem?_eq_getElem h]
+  exact ⟨_, rfl⟩
+
+theorem slice_ok (l : List Nat) (a b : Nat) (h1 : a ≤ b) (h2 : b ≤ l.length) : slice l a b = .ok ((l.drop a).take (b - a)) := by
+  unfold slice
+  rw [if_pos ⟨h1, h2⟩]
+
+/-- outcome discipline of one `MdnsTxt::next` call started at `pos` -/
+def TxtStep (L pos : Nat) (r : R (Option ((List Nat × List Nat) × Nat))) : Prop :=
+  match r with
+  | .ok none => True
+  | .ok (some (_, pos')) => pos < pos' ∧ pos' ≤ L
+  | .error _ => False
+
+theorem TxtStep.mono {L pos pos2 : Nat} (h : pos ≤ pos2) {r : R (Option ((List Nat × List Nat) × Nat))}
+    (hr : TxtStep L pos2 r) : TxtStep L pos r := by
+  cases r with
+  | error e => exact hr
+  | ok o =>
+    cases o with
+    | none => trivial
+    | some v => obtain ⟨kv, p'⟩ := v; exact ⟨by have := hr.1; omega, hr.2⟩
+
+/-- one call of `MdnsTxt::next` never panics, needs at most `len - pos + 1` turns of its `while` loop,
+and moves `pos` forward inside the data -/
+theorem txtNext_fine (data : List Nat) : ∀ (f pos : Nat), data.length - pos < f →
+    TxtStep data.length pos (txtNext data f pos) := by
+  intro f
+  induction f with
+  | zero => intro pos h; omega
+  | succ f ih =>
+    intro pos hf
+    unfold txtNext
+    by_cases hp : pos < data.length
+    · rw [if_pos hp]
+      obtain ⟨len, hlen⟩ := index_ok data pos hp
+      rw [hlen]
+      simp only [bind, Except.bind]
+      have hstop1 : pos + 1 ≤ min (pos + 1 + len) data.length := by omega
+      have hstop2 : min (pos + 1 + len) data.length ≤ data.length := by omega
+      rw [slice_ok data (pos + 1) _ hstop1 hstop2]
+      simp only
+      have hrec := TxtStep.mono (by omega : pos ≤ min (pos + 1 + len) data.length) (ih (min (pos + 1 + len) data.length) (by omega))
+      by_cases hv : validUtf8 (List.take (min (pos + 1 + len) data.length - (pos + 1)) (List.drop (pos + 1) data)) = true
+      · rw [if_pos hv]
+        cases heq : findEq (List.take (min (pos + 1 + len) data.length - (pos + 1)) (List.drop (pos + 1) data)) with
+        | none => exact hrec
+        | some eq =>
+          have hlt := findEq_lt _ eq heq
+          simp only
+          rw [slice_ok _ 0 eq (by omega) (by omega), slice_ok _ (eq + 1) _ (by omega) (Nat.le_refl _)]
+          exact ⟨by omega, hstop2⟩
+      · rw [if_neg hv]; exact hrec
+    · rw [if_neg hp]; trivial
+
+/-- draining `MdnsTxt` always yields a list: no panic, no exhausted budget -/
+theorem txtAll_fine (data : List Nat) : ∀ (g pos : Nat), data.length - pos < g → ∃ kvs, txtAll data g pos = .ok kvs := by
+  intro g
+  induction g with
+  | zero => intro pos h; omega
+  | succ g ih =>
+    intro pos hg
+    have hn := txtNext_fine data (data.length + 1) pos (by omega)
+    unfold txtAll
+    cases hx : txtNext data (data.length + 1) pos with
+    | error e => rw [hx] at hn; exact (hn : False).elim
+    | ok o =>
+      rw [hx] at hn
+      cases o with
+      | none => exact ⟨[], rfl⟩
+      | some v =>
+        obtain ⟨kv, pos'⟩ := v
+        obtain ⟨rest, hrest⟩ := ih pos' (by have := hn.1; have := hn.2; omega)
+        exact ⟨kv :: rest, by simp only [bind, Except.bind, hrest, pure, Except.pure]⟩
+
+theorem txtPairs_fine (data : List Nat) : ∃ kvs, txtPairs data = .ok kvs :=
+  txtAll_fine data _ 0 (by omega)
+
+
+/-! ### `MdnsAddrs`: the re-walking iterator yields the matching addresses in packet order -/
+
+theorem addrOf_ok (d : List Nat) (L : Nat) (r : Rec) (hr : RecOk d L r) : ∃ v, addrOf d r = .ok v := by
+  obtain ⟨v, hv⟩ := okSome_fine _ (toAddr_fine RT_A 4 d L r hr)
+  obtain ⟨w, hw⟩ := okSome_fine _ (toAddr_fine RT_AAAA 16 d L r hr)
+  unfold addrOf
+  rw [hv]
+  simp only [bind, Except.bind]
+  cases v with
+  | some a => exact ⟨_, rfl⟩
+  | none => exact ⟨w, hw⟩
+
+/-- the addresses of the records owned by `t`, in packet order (`g` = what `addrOf` answers per record) -/
+def addrsOf (t : Name) (g : Rec → Option (List Nat)) (rs : List Rec) : List (List Nat) :=
+  rs.filterMap fun r => if nameEq r.owner t then g r else none
+
+theorem addrsWalk_eq (d : List Nat) (t : Name) (g : Rec → Option (List Nat)) (yielded : Nat) :
+    ∀ (rs : List Rec) (seen : Nat), (∀ r ∈ rs, addrOf d r = .ok (g r)) → seen ≤ yielded →
+      addrsWalk d t yielded rs seen = .ok ((addrsOf t g rs)[yielded - seen]?) := by
+  intro rs
+  induction rs with
+  | nil => intro seen _ _; simp [addrsWalk, addrsOf, pure, Except.pure]
+  | cons r rs ih =>
+    intro seen hg hs
+    have hr := hg r (by simp)
+    have ih' := fun s => ih s (fun x hx => hg x (by simp [hx]))
+    unfold addrsWalk
+    by_cases hn : nameEq r.owner t = true
+    · simp only [hn, Bool.not_true, Bool.false_eq_true, if_false, hr, bind, Except.bind]
+      cases hgr : g r with
+      | none =>
+        simp only
+        rw [ih' seen hs]
+        simp [addrsOf, hn, hgr]
+      | some a =>
+        simp only
+        by_cases he : seen = yielded
+        · rw [if_pos he]
+          subst he
+          simp [addrsOf, hn, hgr, pure, Except.pure]
+        · rw [if_neg he, ih' (seen + 1) (by omega)]
+          have : yielded - seen = (yielded - (seen + 1)) + 1 := by omega
+          rw [this]
+          simp [addrsOf, hn, hgr]
+    · simp only [hn, Bool.not_false, if_true]
+      rw [ih' seen hs]
+      simp [addrsOf, hn]
+
+theorem addrsAll_eq (d : List Nat) (t : Name) (g : Rec → Option (List Nat)) (rs : List Rec)
+    (hg : ∀ r ∈ rs, addrOf d r = .ok (g r)) :
+    ∀ (f y : Nat), (addrsOf t g rs).length - y < f → addrsAll d rs (some t) f y = .ok ((addrsOf t g rs).drop y) := by
+  intro f
+  induction f with
+  | zero => intro y h; omega
+  | succ f ih =>
+    intro y hf
+    unfold addrsAll
+    simp only [addrsNext]
+    rw [addrsWalk_eq d t g y rs 0 hg (by omega)]
+    simp only [bind, Except.bind, Nat.sub_zero]
+    cases hy : (addrsOf t g rs)[y]? with
+    | none =>
+      have : (addrsOf t g rs).length ≤ y := by
+        rw [List.getElem?_eq_none_iff] at hy; exact hy
+      simp [List.drop_eq_nil_of_le this, pure, Except.pure]
+    | some a =>
+      have hlt : y < (addrsOf t g rs).length := by
+        rcases Nat.lt_or_ge y (addrsOf t g rs).length with h | h
+        · exact h
+        · rw [List.getElem?_eq_none_iff.mpr h] at hy; cases hy
+      simp only
+      rw [ih (y + 1) (by omega)]
+      simp only [pure, Except.pure]
+      rw [List.drop_eq_getElem_cons hlt]
+      rw [List.getElem?_eq_getElem hlt] at hy
+      injection hy with hy
+      rw [hy]
+
+theorem addrsAll_none (d : List Nat) (rs : List Rec) (f : Nat) : addrsAll d rs none (f + 1) 0 = .ok [] := by
+  simp [addrsAll, addrsNext, bind, Except.bind, pure, Except.pure]
+
+theorem addrsOf_length_le (t : Name) (g : Rec → Option (List Nat)) (rs : List Rec) : (addrsOf t g rs).length ≤ rs.length :=
+  List.length_filterMap_le _ _
+
+/-- **`MdnsAddrs` drained = the A / AAAA addresses of the records owned by the SRV target, in packet order** -/
+theorem addrsAll_spec (d : List Nat) (L : Nat) (rs : List Rec) (target : Option Name) (hok : ∀ r ∈ rs, RecOk d L r) :
+    ∃ g : Rec → Option (List Nat), (∀ r ∈ rs, addrOf d r = .ok (g r)) ∧
+      addrsAll d rs target (rs.length + 1) 0 = .ok (match target with | none => [] | some t => addrsOf t g rs) := by
+  refine ⟨fun r => match addrOf d r with | .ok v => v | .error _ => none, ?_, ?_⟩
+  · intro r hr
+    obtain ⟨v, hv⟩ := addrOf_ok d L r (hok r hr)
+    simp [hv]
+  · cases target with
+    | none => exact addrsAll_none d rs _
+    | some t =>
+      have hg : ∀ r ∈ rs, addrOf d r = .ok ((fun r => match addrOf d r with | .ok v => v | .error _ => none) r) := by
+        intro r hr
+        obtain ⟨v, hv⟩ := addrOf_ok d L r (hok r hr)
+        simp [hv]
+      have := addrsAll_eq d t _ rs hg (rs.length + 1) 0 (by have := addrsOf_length_le t (fun r => match addrOf d r with | .ok v => v | .error _ => none) rs; omega)
+      simpa using this
+
+
+/-- **`parse_into_answer` is total on arbitrary octets**: fewer than 12 octets are refused (`MdnsError`);
+everything else yields `None` or an answer. The model never reaches a panic (checked indexes, slices and
+`usize` subtractions of the parser cursor, of `MdnsTxt` and of the label walk) and never runs out of the
+step budget of the pointer-following name parser, the TXT iterator or the address iterator. -/
+theorem parseIntoAnswer_total (d : List Nat) (scope : Option Nat) :
+    (d.length < 12 ∧ parseIntoAnswer d scope = .error .shortMessage) ∨
+    (12 ≤ d.length ∧ ∃ v, parseIntoAnswer d scope = .ok v) := by
+  unfold parseIntoAnswer
+  by_cases h : d.length < 12
+  · left; exact ⟨h, by rw [if_pos h]⟩
+  · right
+    refine ⟨by omega, ?_⟩
+    rw [if_neg h]
+    split
+    · exact ⟨none, rfl⟩
+    · obtain ⟨rs, hrs, hok⟩ := allRecords_good d (by omega)
+      obtain ⟨acc, hacc⟩ := pass1_ok d d.length rs {} hok
+      rw [hrs]
+      simp only [bind, Except.bind, hacc]
+      cases hi : acc.inst with
+      | none => exact ⟨none, rfl⟩
+      | some inst =>
+        obtain ⟨t, ht⟩ := findTxt_ok d d.length inst rs hok
+        obtain ⟨kvs, hkvs⟩ := txtPairs_fine t
+        obtain ⟨g, _, ha⟩ := addrsAll_spec d d.length rs acc.host hok
+        simp only [ht, hkvs, ha]
+        exact ⟨_, rfl⟩
+
+
 end Codec.Mdns
